@@ -102,12 +102,14 @@ func (w *World) reloadPointer(p ptrRec, k int, why string) {
 	var err error
 	d := &FetchDriver{R: w.R, St: view, Name: w.M.Name, HookBias: w.R.Choose("drv-bias", 3)}
 	conc := w.R.Choose("load-conc", 6)
+	w.withProgress(d)
+	defer func() { w.curProgress = nil }()
 	d.Run(func() {
 		ctx := context.Background()
 		if p.kind == 0 {
-			l, err = ipfslog.NewFromMultihash(ctx, view, Writers()[4].ID, p.c, w.loadOpts(), &ipfslog.FetchOptions{Concurrency: conc})
+			l, err = ipfslog.NewFromMultihash(ctx, view, Writers()[4].ID, p.c, w.loadOpts(), &ipfslog.FetchOptions{Concurrency: conc, ProgressChan: w.curProgress})
 		} else {
-			l, err = ipfslog.NewFromEntryHash(ctx, view, Writers()[4].ID, p.c, w.loadOpts(), &ipfslog.FetchOptions{Concurrency: conc})
+			l, err = ipfslog.NewFromEntryHash(ctx, view, Writers()[4].ID, p.c, w.loadOpts(), &ipfslog.FetchOptions{Concurrency: conc, ProgressChan: w.curProgress})
 		}
 	})
 	w.R.Add("fetch-steps", int64(d.Steps))
